@@ -560,8 +560,7 @@ func c01OtherSlash(q *c01Qual, width int) bool {
 
 var c01DigitWord = map[int]string{1: "one", 2: "two", 3: "three", 4: "four", 5: "five", 6: "six"}
 
-// c01Axes lists the axes leaf first, containers last. structured is the C03
-// view in which nothing is wrapped by the writer under test.
+// c01Axes lists the axes leaf first, containers last.
 func c01Axes() []c01Axis {
 	var ax []c01Axis
 	for _, d := range []int{1, 2, 4, 5, 6} {
@@ -847,8 +846,9 @@ func c01Blame(f *c01File, fails func(g *c01File) bool) (string, c01File) {
 		}
 	}
 	// The class is named after the shape axes that must stay. Axes that only
-	// hold another kept axis (containers) and the pure quantity axes
-	// ("several-...") are left out of the name when a shape axis remains.
+	// hold another kept axis (containers) and the pure quantity or existence
+	// axes ("several-...", "features", "references", "extra-keyword") are left
+	// out of the name when a shape axis remains.
 	var names, quantities, all []string
 	for _, i := range present {
 		if keep[i] {
@@ -857,7 +857,7 @@ func c01Blame(f *c01File, fails func(g *c01File) bool) (string, c01File) {
 			if container[i] {
 				continue
 			}
-			if strings.HasPrefix(name, "several-") {
+			if strings.HasPrefix(name, "several-") || name == "features" || name == "references" || name == "extra-keyword" {
 				quantities = append(quantities, name)
 			} else {
 				names = append(names, name)
